@@ -173,12 +173,18 @@ P = {
        "node for node through a -overlay dump): run_inv (red-black invariants after every history, any compare function), "
        "height_le 2*log2(n+1), insert_inorder (stable insertion), remove_inorder (erases the FIRST equal entry), inorder_run/"
        "count_run (refinement to the sorted association list), get_first, first_last, traverse and traverseFrom specs with the "
-       "visitor cut, comparison-count bounds (find <= height, insert <= height+1). ~1.5M operations per quick run; the "
-       "real code's comparison count is judged on every operation against the property's bound 2*floor(log2(n+1)) + "
-       "(entries equal to the key) + 2 (exact counts are not compared: the statement only bounds them).",
+       "visitor cut, comparison-count bounds (find <= height, insert <= height+1). fixups_never_dereference_nil (a partial model with Option-returning accessors exactly at the Go "
+       "dereference sites - sibling, nephews, parent, grandparent, uncle, pivots - never hits none after any history, for "
+       "every compare function; contrast trees violating black-height equality do). ~1.5M operations per quick run; exact "
+       "compare counts are not compared: the harness judges the REAL count of every operation against the bound proved for "
+       "the model plus the property's allowance - Get/Remove <= 2*floor(log2(n+1)) + E + 1, Insert <= 2*floor(log2(n+1)) + 1 "
+       "(n = entries before the operation, E = entries comparing equal to the key).",
   note="compare assumed a total preorder (explicit hypothesis, proved for the driver's two modes); parent pointers and Go "
        "recursion depth are outside the model (parent links checked at run time by the overlay's inv op); shape/count "
-       "observables are model detail: a mismatch only there is reported without a concrete failing input.",
+       "observables are model detail: a mismatch only there is reported without a concrete failing input; visitors may stop, "
+       "keep state, panic or call read-only methods - a visitor that calls Insert/Remove on the tree it is traversing is "
+       "outside the theorems and the correspondence run; the white-box accessor adapts to renamed private fields and falls "
+       "back to the exported Dump() text (parent links then unchecked).",
   ref="DESIGN.md section 5 C06"),
  "C10": dict(
   text="26 Lean theorems about the executable byte-level model of CmdLine.Parse (option table construction, three-state "
